@@ -47,20 +47,22 @@ FrameCustomData(r) ==
      \A key \in DOMAIN r.cbpd[n] : key \in DOMAIN r.filepd[n] /\ SeqEq(r.filepd[n][key], r.cbpd[n][key])
 
 \* ---- save: displacements and reaction forces written unchanged
+\* the file felupe wrote can be read back at all (by the trusted reader); the content clauses presuppose it
+SaveReadable(r) == r.readable
 SaveDisplacement(r) == SeqEq(r.uw, r.ur)
 SaveReaction(r) == SeqEq(r.fw, r.fr)
 
 Clauses(r) == CASE r.kind = "roundtrip" -> {"PaddedPoints", "CutPoints", "SameCells", "SameCellType"}
                 [] r.kind = "shared" -> {"SharedPoints"}
                 [] r.kind = "frames" -> {"FrameCount", "FrameOrder", "FrameDisplacement", "FrameCellData", "FrameCellKeys", "FrameCustomData", "FrameKeysExact", "FrameKeysNoExtras"}
-                [] r.kind = "save" -> {"SaveDisplacement", "SaveReaction"}
+                [] r.kind = "save" -> IF r.readable THEN {"SaveReadable", "SaveDisplacement", "SaveReaction"} ELSE {"SaveReadable"}
 Holds(c, r) == CASE c = "PaddedPoints" -> PaddedPoints(r) [] c = "CutPoints" -> CutPoints(r)
                  [] c = "SameCells" -> SameCells(r) [] c = "SameCellType" -> SameCellType(r)
                  [] c = "SharedPoints" -> SharedPoints(r)
                  [] c = "FrameCount" -> FrameCount(r) [] c = "FrameOrder" -> FrameOrder(r)
                  [] c = "FrameDisplacement" -> FrameDisplacement(r) [] c = "FrameCellData" -> FrameCellData(r)
                  [] c = "FrameCellKeys" -> FrameCellKeys(r) [] c = "FrameCustomData" -> FrameCustomData(r) [] c = "FrameKeysExact" -> FrameKeysExact(r) [] c = "FrameKeysNoExtras" -> FrameKeysNoExtras(r)
-                 [] c = "SaveDisplacement" -> SaveDisplacement(r) [] c = "SaveReaction" -> SaveReaction(r)
+                 [] c = "SaveReadable" -> SaveReadable(r) [] c = "SaveDisplacement" -> SaveDisplacement(r) [] c = "SaveReaction" -> SaveReaction(r)
 Applicable(r) == Clauses(r)
 Failing(r) == {c \in Clauses(r) : ~Holds(c, r)}
 
